@@ -279,6 +279,52 @@ func checkC19(r *core.Run) {
 		}
 		r.Check(len(starts) > 0 && !bad, "R-C19-order", "change-recorded/"+n, p.Pos(fn.Pos()), "every way out after changing the index queues the key or marks the volatile store as modified", n+" can return after changing the in-memory index without queueing the key or marking the store modified: in volatile mode Close() then writes nothing and the change is lost")
 	}
+	// data-file sequence: a new session writes to file number (highest sequence referenced by the index)+1; the
+	// highest sequence is raised for every record put into the index, new key or overwrite alike (otherwise a
+	// later session re-creates, i.e. truncates, a data file that live records still point into)
+	if mp := q("(*QdbIndex).memput"); mp == nil {
+		r.Fail("R-C19-load", "data-sequence", "-", "memput not found")
+	} else {
+		okSeq, why := false, "memput does not raise MaxDatfileSequence"
+		an.Instrs(mp, func(i ssa.Instruction) {
+			st, ok := i.(*ssa.Store)
+			if !ok {
+				return
+			}
+			fa, ok := st.Addr.(*ssa.FieldAddr)
+			if !ok {
+				return
+			}
+			if f, _ := an.FieldOf(fa); f != "lib/others/qdb.QdbIndex.MaxDatfileSequence" {
+				return
+			}
+			cs := an.DomConds(st.Block())
+			okSeq = an.Expr(st.Val) == "param#2.DataSeq"
+			why = ""
+			for _, c := range cs {
+				if !(strings.Contains(c.Cond, "param#2.DataSeq") && strings.Contains(c.Cond, "MaxDatfileSequence")) {
+					okSeq = false
+					why = "the highest data-file sequence is raised only under the additional condition " + c.Cond
+				}
+			}
+		})
+		okNew := false
+		if nd := q("NewDBExt"); nd != nil {
+			an.Instrs(nd, func(i ssa.Instruction) {
+				if st, ok := i.(*ssa.Store); ok {
+					if fa, ok := st.Addr.(*ssa.FieldAddr); ok {
+						if f, _ := an.FieldOf(fa); f == "lib/others/qdb.DB.DataSeq" && strings.HasSuffix(an.Expr(st.Val), ".MaxDatfileSequence + 1)") {
+							okNew = true
+						}
+					}
+				}
+			})
+		}
+		if !okNew && why == "" {
+			why = "a new session does not start at MaxDatfileSequence+1"
+		}
+		r.Check(okSeq && okNew, "R-C19-load", "data-sequence", p.Pos(mp.Pos()), "every indexed record raises the highest data-file sequence; a session writes to the next one", why)
+	}
 	// codec
 	c19Codec(r, p)
 	// locks
